@@ -355,6 +355,7 @@ class Stats:
                           unexplained=0)
         self.multi = {}            # theory -> {category: undone levels in which one bound / cell / domain had been updated >= 2 times}
         self.mu_void = 0
+        self.ov_tie = 0
         self.levels_merged = 0
         self.fresh_knows_more = 0
         self.lemmas_checked = 0
@@ -710,11 +711,29 @@ def undone_levels(run):
 def mu_checks(run):
     """chk=0: the cells saved in the undo layers of the difference logics are not the values the cells had at the beginning of
     the level (the replay of the level's constraint literals on the reconstructed matrix does not give the next matrix)."""
+    probs = []
     for i, m in enumerate(run.mus):
         if " chk=0" in m:
-            return [dict(sig="net:undo-layers-do-not-replay", at=i, mode="replay of the level's constraints on the matrix rebuilt from the undo layers",
-                         diff=[("mu", "chk", "1", "0")], net_obs=run.obs[i], corr=False)]
-    return []
+            probs.append(dict(sig="net:undo-layers-do-not-replay", at=i, mode="replay of the level's constraints on the matrix rebuilt from the undo layers",
+                              diff=[("mu", "chk", "1", "0")], net_obs=run.obs[i], corr=False))
+            break
+    # the object-variable theory as the instance of coq/smt/SatCoreOv.v (C08_pop_after_assume_restores_sat_ov): its layers follow the
+    # decision level, nothing is ever stored in a layer, no conflict is pending, and it never reports a lemma / a conflict (a clause
+    # recorded by LRA / IDL / RDL contains a relation literal of that theory)
+    for i, m in enumerate(run.mus):
+        f = obs_fields(m)
+        if "ovl" in f and (f["ovl"] != f.get("n") or f.get("ovv") != "0" or f.get("ovc") != "0"):
+            probs.append(dict(sig="net:ov-theory-state-is-not-the-number-of-levels", at=i, mode="ov_theory::layers / cnfl after the command",
+                              diff=[("mu", "ovl/ovv/ovc", "%s/0/0" % f.get("n"), "%s/%s/%s" % (f.get("ovl"), f.get("ovv"), f.get("ovc")))], net_obs=run.obs[i]))
+            break
+    kinds = run.kinds
+    for i, a in enumerate(run.ans):
+        bad = [ls for k, ls in hooks_of(a) if k in (2, 3) and ls and all((l >> 1) < len(kinds) and kinds[l >> 1] in "ob" for l in ls if l > 1)]
+        if bad:
+            probs.append(dict(sig="net:theory-clause-without-a-numeric-atom", at=i, mode="hook kind 2 / 3 over object-variable and plain literals only",
+                              diff=[("hook", "clause", "a relation literal of lra / idl / rdl", str(bad[0]))], net_obs=run.obs[i]))
+            break
+    return probs
 
 
 def analyse(run, F, stats, rng=None, sample=1.0, only_last=False, count=True, C=None):
@@ -764,6 +783,7 @@ def account(run, stats):
             stats.hooks[k] = stats.hooks.get(k, 0) + 1
         if op in ("o", "n"):
             stats.pops += 1
+    stats.ov_tie += sum(1 for m in run.mus if " ovl=" in m)
     for i, k, how, mu in undone_levels(run):
         if not mu["chk"]:
             stats.mu_void += 1
@@ -1094,6 +1114,10 @@ def run(ctx):
              "exact replay of the level's theory literals), by how the level was then undone (explicit pop, next(), backjump after a "
              "conflict); over_an_older_finite_value = the first of these updates overwrote a finite value written at a lower level")
     cov["comparison_points"]["one_sided_where_fresh_has_more_literals_assigned"] = stats.fresh_knows_more
+    cov["ov_instance_tie"] = dict(commands_checked=stats.ov_tie, rule="after every history command ov_theory::layers.size() == decision level, no variable "
+                                  "stored in a layer, no pending conflict, and no hook kind 2 / 3 clause made of object-variable / plain literals only "
+                                  "(the instance ov_thp / ov_thc / ov_thpush / ov_thpop of coq/smt/SatCoreOv.v); domains before / after pop and against the "
+                                  "fresh network are part of obs")
     cov["distinct_nontrivial"] = stats.nontrivial
     cov["traces_validated_against_impl"] = stats.agreed
     cov["scenario_cases"] = dict(cases=min(len(scen), ncase), rule="small network + one gadget of the named theory; the history starts with [d0] d [x] "
